@@ -1,6 +1,7 @@
 import Driver.Util
 import GqlgenVerif.Model.Naming
 import GqlgenVerif.Model.TypeRef
+import GqlgenVerif.Model.Flavour
 /-! Line-protocol driver for C17: the naming model on the harness's cases. Text travels as hex of UTF-8;
 the model works on code points (the harness sends ASCII, type identifiers are returned as code points
 re-encoded to UTF-8). -/
@@ -189,7 +190,17 @@ def typeRefStep : List String → Option String
     pure (if (processType go g).2 then "FAIL:generator panics (nil GQL)" else showOut (marshal go g (goValOf g v)))
   | _ => none
 
+/-- `flav`: the flavour switches of the regenerated template table whose function-syntax arm is not the translation
+of the method-syntax arm (`ok` when there is none): file:line, the arm the translation yields, the arm that stands
+in the template; fields separated by TAB-free ` @@ `, pairs by ` ## ` -/
+def flavStep : String :=
+  let bad := GqlgenVerif.Flavour.disagreeing
+  if bad.isEmpty then "ok" else
+  " ## ".intercalate (bad.map fun (f, l, vs, segs, _, fn) =>
+    s!"{f}:{l} @@ {GqlgenVerif.Flavour.render (GqlgenVerif.Flavour.toFn vs segs)} @@ {GqlgenVerif.Flavour.render fn}")
+
 def step (line : String) : String :=
+  if line == "flav" then flavStep else
   if let some r := typeRefStep (line.splitOn " ") then r else
   match line.splitOn " " with
   | ["togo", h] => match ofHex h with | some n => toHex (toGo n) | none => "bad-op"
